@@ -136,6 +136,8 @@ func runC10(cases string, res *Result) {
 	if evalAbort {
 		return
 	}
+	c10ParentsNamedRelatively(cases, res)
+	c10LayoutsRenderedFirst(res)
 	c10ParentInsideConstructs(res)
 	c10BlocksUnderLiteralConditions(res)
 	c10ParentNameSpellings(res)
